@@ -184,7 +184,7 @@ impl Prop for C01 {
         vec![
             "read timeouts are finite (None is documented as 'block indefinitely')".into(),
             "a panic, an arithmetic overflow (overflow-checks on for every crate), a process abort, more than 20 s CPU in one query, or exceeding the socket-operation budget counts as a violation".into(),
-            "Eco replies are injected at the HttpClient seam; ureq itself is not executed".into(),
+            "Eco: half of the cases run the real HTTP client (vendored ureq over the simulated TCP transport) against scripted HTTP/1.1 responses, the other half inject the body at the HttpClient seam".into(),
         ]
     }
 
